@@ -71,6 +71,30 @@ GenNext == GenNextOf(Kinds, GateSet)
 GenSpec == Init /\ [][GenNext]_qv
 RelSpec == Init /\ [][GenNextOf(RelKinds, RelGates)]_qv
 
+(* A scripted family explored EXHAUSTIVELY (no random choice): one outside qubit, one owner of two qubits (every class of
+   width 2), its first qubit put in superposition, the two entangled in either direction, optionally one of them entangled
+   with the outside qubit, then the owner released by destroy or by scope exit with every pair of draws, then the outside
+   qubit measured. These are the releases whose implicit resets meet mutually correlated, unmeasured targets. *)
+TwoWide  == {c \in Classes : TotalWidth(c) = 2}
+LastS    == IF prog = <<>> THEN "none" ELSE prog[Len(prog)].s
+CountS(k) == Cardinality({i \in 1..Len(prog) : prog[i].s = k})
+TheObj   == CHOOSE i \in 1..Len(vars) : vars[i].k = "obj"
+HasObj   == \E i \in 1..Len(vars) : vars[i].k = "obj"
+ObjLive  == HasObj /\ LiveVar(TheObj)
+PairNext ==
+   /\ Running
+   /\ \/ LastS = "none" /\ DeclQ(FALSE, 1)
+      \/ LastS = "declq" /\ (OpenBlock \/ \E c \in TwoWide : NewObj(c, <<1, 7>>))
+      \/ LastS = "open" /\ \E c \in TwoWide : NewObj(c, <<7, 1>>)
+      \/ LastS = "new" /\ \E g \in {<<"h", 0>>, <<"ry", 1>>} : Gate(g[1], g[2], 0, <<TheObj, 1>>, "direct")
+      \/ LastS = "gate" /\ (CXg(<<TheObj, 1>>, <<TheObj, 2>>, "direct") \/ CXg(<<TheObj, 2>>, <<TheObj, 1>>, "direct"))
+      \/ LastS = "cx" /\ CountS("cx") = 1 /\ \E e \in {1, 2} : CXg(<<TheObj, e>>, <<1, 1>>, "direct")
+      \/ LastS = "cx" /\ ObjLive /\ \E rs \in D2 : (Destroy(TheObj, rs) \/ (depth > 0 /\ CloseBlock(rs)))
+      \/ LastS \in {"destroy", "close"} /\ CountS("measure") = 0 /\ \E d \in {1, 7} : Measure(<<1, 1>>, d, TRUE, "direct")
+      \/ LastS = "measure" /\ depth > 0 /\ CloseBlock(<<1, 7>>)
+      \/ LastS \in {"measure", "close"} /\ CountS("measure") = 1 /\ depth = 0 /\ Finish(<<7, 1>>)
+PairSpec == Init /\ [][PairNext]_qv
+
 (* Exhaustive small-scope exploration: reduced parameter sets (the access path and the concrete gate do
    not influence the bookkeeping), history variables hidden by a VIEW. *)
 SD1 == {1,7}
